@@ -116,6 +116,12 @@ add("C16", "xenum+seqx", "model_checking",
     "Operations are exercised with honest argument values; memory reachable only through unexported fields is observed indirectly (through later results).",
     "DESIGN.md 4 C16")
 
+add("C17", "vsched", "model_checking",
+    "stateless schedule exploration with a pre-emption bound (1 quick / 2 thorough) of 15 scenarios (2-3 goroutines, one call each on one freshly constructed shared issuer or key) over pat-go sources instrumented with a scheduling point before every statement, executed under a cooperative scheduler that is invisible to the Go race detector, so that every explored schedule is also checked for data races by happens-before analysis",
+    "For each of thousands of distinct schedules per run: no race report on any memory (pat-go, circl, math/big, standard library), every call's result is one a sequential call could have produced (responses finalize to valid tokens under the requesting client state, key ids and blinded keys equal the sequential ones, signatures verify), no deadlock, no panic. Finds both data races (lazy initialisation, in-place normalisation, memoisation, shared scratch buffers, counters) and race-free atomicity bugs (correctly locked check-then-act).",
+    "Dependencies are atomic steps of a schedule (their races are still detected); the bound is pre-emptions <= 1 (quick) / 2 (thorough); quick uses function-entry granularity inside the signature forks; the race detector's bounded shadow history means a given race is reported in some schedules only.",
+    "DESIGN.md 3.4 and 4 C17")
+
 NOT_APPLICABLE = {}
 
 ALL = ["C%02d" % i for i in range(1, 21)]
